@@ -98,6 +98,26 @@ class C11(Prop):
                   "the real functions; frames through the real Pack/Unpack vs model and vs an independent Go bit writer.")
 
 
+class C18(Prop):
+    id = "C18"
+    lean_module = "Props.C18"
+    streams = [("C18", "gendrv", 1.0)]
+    budgets = {"quick": 30000, "thorough": 400000}
+    thorough_seeds = 2
+    rule = ("exhaustive: all 65,535 non-zero addresses of both kinds formatted by the real String() and parsed back (4 "
+            "operations each); component triples/pairs/raw values over the documented ranges widened by 3..12 on both sides "
+            "incl. negatives (1/3 sample in quick, all in thorough); a grammar of malformed strings (21 pieces x 21 x 5 x 7 "
+            "separators x 6 shapes: empty components, signs, spaces, hex, exponent, underscore, full-width and Arabic digits, "
+            "20-digit numbers, wrong separators, 0/4 components). Oracle: acceptance and value by an independently written "
+            "rule. distinct = distinct (parser, text) pairs.")
+    technique = "Lean 4 proof (render/atoi and split/join inverses by induction; bit-extensional recomposition over the regenerated constructors) + exhaustive differential correspondence"
+    level_text = ("Theorems: parse(format a) = a for every non-zero 16-bit address of both kinds (structural, not enumerated); "
+                  "the accepted component tuples are exactly the documented ranges, address zero excluded (iff); text is accepted "
+                  "iff it splits into Atoi-literals forming such a tuple; each constructor - regenerated from the source each run - "
+                  "places every component in its bit field and ignores excess bits. Tie: regenerated constructors; all 65,535x2 "
+                  "round trips and ~10^5 strings through the real parsers vs the model (gendrv).")
+
+
 class C15(Prop):
     id = "C15"
     lean_module = "Props.C15"
@@ -113,7 +133,7 @@ class C15(Prop):
     partial = "prefill-independence / no-overrun are shown by the differential run, not yet by a buffer-level Lean theorem"
 
 
-ALL = {c.id: c for c in [C01, C02, C11, C15]}
+ALL = {c.id: c for c in [C01, C02, C11, C15, C18]}
 NOT_CLAIMED = {}
 
 
